@@ -259,6 +259,12 @@ def case_products(rng: Any, ctx: Ctx, index: int) -> None:
         if not isinstance(r, exp_cls) and len(left.block_leaves) > 1 and type(r).__name__ not in ('IdentityOperator',):
             LOG.violation('C10', 'C10.products', f'{tag}/class', f'reduced to {type(r).__name__}', left=dense.describe(left), right=dense.describe(right))
             return
+        comp = left @ right
+        if not (dense.struct_eq_loose(r.in_structure(), comp.in_structure()) and dense.struct_eq_loose(r.out_structure(), comp.out_structure())):
+            LOG.violation('C10', 'C10.products', f'{tag}/structures/arity{"1" if len(left.block_leaves) == 1 else "N"}',
+                          'the reduced product has other structures than the product', left=dense.describe(left), right=dense.describe(right),
+                          result=dense.describe(r))
+            return
         ok, err = dense.close(dense.matrix(left) @ dense.matrix(right), dense.matrix(r), dense.tol_for(left, right))
         if not ok:
             LOG.violation('C10', 'C10.products', f'{tag}/matrix', f'rel err {err:.3g}', left=dense.describe(left), right=dense.describe(right))
